@@ -334,7 +334,8 @@ pub fn do_read(cache: &Cache, kind: ReadKind, keys: &[u32]) -> (Vec<Option<u64>>
         ReadKind::MultiGet => {
             let refs: Vec<&u32> = keys.iter().collect();
             let m = cache.multi_get(refs);
-            let complete = keys.iter().all(|k| m.contains_key(k)) && m.len() == keys.len();
+            let distinct: std::collections::BTreeSet<&u32> = keys.iter().collect();
+            let complete = keys.iter().all(|k| m.contains_key(k)) && m.len() == distinct.len();
             (keys.iter().map(|k| m.get(k).cloned().flatten()).collect(), complete)
         }
         ReadKind::MultiGetIter => {
@@ -510,6 +511,14 @@ pub fn exec_op(cache: &Cache, ctx: &mut ThreadCtx, i: usize, op: &Op, shards: us
         Op::Yield => {
             shuttle::thread::yield_now();
             Res::Unit
+        }
+        Op::MapGetCallingBack { key, inner } => {
+            // the acknowledgement of the inner delete is dropped (nobody waits for it)
+            let v = cache.map_get(key, |v| {
+                let _ = cache.delete(*inner);
+                !v
+            });
+            Res::Read { vals: vec![v.map(|x| !x)], complete: true }
         }
     };
     if let Some((Ok(ack), _)) = &write_result {
